@@ -114,6 +114,41 @@ fn unit_text<const N: usize>(ctx: &mut Ctx, s: &str) {
     }
 }
 
+/// the same conversions through `FromIterator<char>` fed by iterators whose size hint counts characters (a vector
+/// of chars, `chars().take(k)`, `repeat().take(k)`), not bytes: the result must be the same prefix
+fn unit_from_char_iterators<const N: usize>(ctx: &mut Ctx, s: &str) {
+    ctx.eval();
+    let r = guard(|| {
+        let v: Vec<char> = s.chars().collect();
+        let a: ArrayString<N> = v.clone().into_iter().collect();
+        let b: ArrayString<N> = s.chars().take(v.len()).collect();
+        let c: ArrayString<N> = match v.first() {
+            Some(&ch) => std::iter::repeat(ch).take(v.len().min(300)).collect(),
+            None => ArrayString::<N>::new(),
+        };
+        let d: Df88591String<N> = v.clone().into_iter().collect();
+        let (a, b, c): (&str, &str, &str) = (&a, &b, &c);
+        (a.to_string(), b.to_string(), c.to_string(), d.iter().copied().collect::<Vec<u8>>())
+    });
+    match r {
+        Err(p) => ctx.panic_violation("C17.no_panic", &p, &format!("collect::<ArrayString<{}>>() / collect::<Df88591String<{}>>() from a char iterator", N, N), rp(s)),
+        Ok((a, b, c, d)) => {
+            ctx.count("conversions_from_char_iterators");
+            let e = ref_prefix(s, N);
+            let rep: String = match s.chars().next() {
+                Some(ch) => std::iter::repeat(ch).take(s.chars().count().min(300)).collect(),
+                None => String::new(),
+            };
+            if a != e || b != e || c != ref_prefix(&rep, N) {
+                ctx.violation(format!("C17.utf8_prefix|{}|from_char_iterator", N), "C17.utf8_prefix", format!("collect::<ArrayString<{}>>() from a char iterator over a string of {} bytes kept {} / {} bytes, reference keeps {} bytes", N, s.len(), a.len(), b.len(), e.len()), rp(s));
+            }
+            if d != ref_desc(s, N) {
+                ctx.violation(format!("C17.descriptor_mapping|{}|from_char_iterator", N), "C17.descriptor_mapping", format!("collect::<Df88591String<{}>>() from a char iterator: stored {:?}, reference {:?}", N, &d[..d.len().min(40)], &ref_desc(s, N)[..ref_desc(s, N).len().min(40)]), rp(s));
+            }
+        }
+    }
+}
+
 fn unit(ctx: &mut Ctx, s: &str) {
     classify(ctx, s);
     ctx.nontrivial(hash_bytes(s.as_bytes()));
@@ -123,6 +158,9 @@ fn unit(ctx: &mut Ctx, s: &str) {
     unit_text::<7>(ctx, s);
     unit_text::<31>(ctx, s);
     unit_text::<255>(ctx, s);
+    unit_from_char_iterators::<7>(ctx, s);
+    unit_from_char_iterators::<31>(ctx, s);
+    unit_from_char_iterators::<255>(ctx, s);
     unit_text::<4>(ctx, s);
 }
 
